@@ -17,6 +17,7 @@ import (
 	"fmt"
 	"os"
 	"strconv"
+	"strings"
 	"sync"
 	"sync/atomic"
 	"time"
@@ -70,6 +71,8 @@ type FrameSpec struct {
 	Off    uint64       `json:"off,omitempty"`
 	Tail   int          `json:"tail,omitempty"`
 	Raw    string       `json:"raw,omitempty"`
+	// how the message travels: "" one websocket frame | "frag:k" two fragments, the first with k bytes
+	Shape string `json:"shape,omitempty"`
 }
 
 type Step struct {
@@ -103,6 +106,7 @@ type SentFrame struct {
 	Whole  bool         `json:"whole"` // header and body complete and well-formed for To's call
 	AtEv   int          `json:"at"`    // index in Events
 	Len    int          `json:"len"`
+	Shape  string       `json:"shape,omitempty"`
 }
 
 type CallerObs struct {
@@ -131,10 +135,38 @@ type Case struct {
 	Page    []PageObs      `json:"page,omitempty"`   // stream page: tunnel reads into windows of one scratch page
 	Hang    string      `json:"hang,omitempty"`
 	Crash   string      `json:"crash,omitempty"`
+	// the transport's network connection returns at most that many bytes per Read (0: no limit)
+	Chunk   int         `json:"chunk,omitempty"`
 	Skipped string      `json:"skipped,omitempty"` // not run: "hangs" (the stream was cut short after repeated hangs) | "budget" (the run's wall-clock budget was used up)
 }
 
 // ---- generation -----------------------------------------------------------
+
+// How a reply's bytes reach the transport is part of the history: the peer
+// sends the message in one websocket frame or in two fragments whose first
+// has 1, 5, 9, 10 or 11 bytes (the fixed header of a reply is 10 bytes), and
+// the transport's network connection delivers everything or at most 1, 7,
+// 9, 10, 11 or 64 bytes per Read.  Drawn from a generator of its own, so
+// that the histories themselves are what they were.
+var fragShapes = []string{"frag:1", "frag:5", "frag:9", "frag:10", "frag:11"}
+var readChunks = []int{1, 7, 9, 10, 11, 64}
+
+func shaped(c Case, seed uint64) Case {
+	r := hx.NewRng(seed*0x51ed27 + uint64(c.I)*0x9e37 + 11)
+	if c.I%3 == 1 {
+		c.Chunk = readChunks[(c.I/3)%len(readChunks)]
+	}
+	for si := range c.Steps {
+		for fi := range c.Steps[si].Frames {
+			f := &c.Steps[si].Frames[fi]
+			if f.Kind == "text" || r.Intn(5) < 2 {
+				continue
+			}
+			f.Shape = fragShapes[r.Intn(len(fragShapes))]
+		}
+	}
+	return c
+}
 
 func genBytes(r *hx.Rng, max int) []rpcx.Seg {
 	n := r.Intn(max + 1)
@@ -1695,6 +1727,7 @@ func (rn *runner) doFrames(fs []FrameSpec) bool {
 	for _, f := range fs {
 		data, text, sf := rn.resolve(f)
 		sf.AtEv = len(rn.c.Events)
+		sf.Shape = f.Shape
 		rn.c.Frames = append(rn.c.Frames, sf)
 		if text {
 			rn.event(Event{E: "text"})
@@ -1703,7 +1736,11 @@ func (rn *runner) doFrames(fs []FrameSpec) bool {
 		}
 		rn.event(Event{E: "reply", Frame: rpcx.SegsOf(data)})
 		rn.track(data)
-		rn.pair.B.WriteMessage(websocket.BinaryMessage, data)
+		first := 0
+		if strings.HasPrefix(f.Shape, "frag:") {
+			first, _ = strconv.Atoi(f.Shape[5:])
+		}
+		rpcx.WriteFragmentedClient(rn.pair.B, data, first)
 		if f.Kind == "hint" {
 			hint = true
 		}
@@ -1749,6 +1786,7 @@ func (rn *runner) run() {
 	}
 	rn.pair = pair
 	defer pair.Close()
+	pair.LimitReadsA(c.Chunk)
 	rn.cl = sniproxy.VerifNewClient(pair.A, nil)
 	reqs := make(chan []byte, 256)
 	rn.reqs = reqs
@@ -2186,7 +2224,7 @@ func main() {
 	*n += 2 * *nstress // (every stress case is followed by a page case)
 	gen := func(i int) Case {
 		if scripted != nil {
-			return Case{I: i, Stream: scripted[i].Stream, Steps: scripted[i].Steps}
+			return Case{I: i, Stream: scripted[i].Stream, Steps: scripted[i].Steps, Chunk: scripted[i].Chunk}
 		}
 		if i >= nhist && (i-nhist)%2 == 1 {
 			return Case{I: i, Stream: "page", Steps: []Step{}}
@@ -2194,7 +2232,7 @@ func main() {
 		if i >= nhist {
 			return Case{I: i, Stream: "stress", Steps: []Step{}}
 		}
-		return genHistory(*seed, i)
+		return shaped(genHistory(*seed, i), *seed)
 	}
 	out := hx.NewOut(os.Stdout)
 	if *child {
